@@ -621,6 +621,46 @@ def case_two_objects(ctx, kind, start, rseed, count, maxlen):
                    sample={"class": kind, "start": start, "interleaved_history": [list(map(repr, d)) for d in done[:10]]})
 
 
+def case_equal_but_not_identical(ctx, rseed):
+    """Vertices given as two different int objects of the same value (one parsed from text, one computed), on graphs
+    with more than 256 vertices, where the interpreter no longer shares small-integer objects: self-loops, repeated
+    edges and membership must be judged by value."""
+    import cnfgen.graphs as g
+    r = ctx.rng("c16ident", rseed)
+    for n in (257, 300, 1000):
+        for kind in ("simple", "digraph", "bipartite"):
+            for v in sorted({257, n, r.randint(258, n) if n > 258 else n, 12}):
+                G = g.Graph(n) if kind == "simple" else g.DirectedGraph(n) if kind == "digraph" else g.BipartiteGraph(n, n)
+                where = "%s(%d)" % (type(G).__name__, n)
+                a, b = int(str(v)), (v - 1) + 1          # equal values, different objects above the small-int cache
+                ctx.count("equal_but_distinct_int_arguments")
+                if kind != "bipartite":
+                    st, e = ctx.call(G.add_edge, a, b)
+                    loops = kind == "digraph" and st == "ok"
+                    if st == "ok" and kind == "simple":
+                        ctx.violation("simple:self-loop-accepted", "%s: add_edge(%d, %d) with two int objects of equal value was accepted" % (where, v, v))
+                    if kind == "simple" and (G.has_edge(a, b) or G.number_of_edges() != 0 or G.degree(v) != 0):
+                        ctx.violation("simple:self-loop-accepted", "%s after add_edge(%d, %d): has_edge %r, %d edges, degree %d"
+                                      % (where, v, v, G.has_edge(a, b), G.number_of_edges(), G.degree(v)))
+                        G = g.Graph(n)
+                if kind == "digraph":
+                    G = g.DirectedGraph(n)
+                # an ordinary edge given twice through different objects is one edge
+                u1, u2 = int(str(v)), (v - 1) + 1
+                w1, w2 = int(str(v - 1)), (v - 2) + 1
+                before = G.number_of_edges()
+                s1, _ = ctx.call(G.add_edge, w1, u1) if kind != "bipartite" else ctx.call(G.add_edge, u1, w1)
+                s2, _ = ctx.call(G.add_edge, w2, u2) if kind != "bipartite" else ctx.call(G.add_edge, u2, w2)
+                if s1 == "ok" and s2 == "ok":
+                    if G.number_of_edges() != before + 1:
+                        ctx.violation("%s:edge-given-twice-through-equal-ints" % kind, "%s: add_edge twice with equal values (%d, %d): %d new edges"
+                                      % (where, v - 1, v, G.number_of_edges() - before))
+                    ok = G.has_edge(int(str(v - 1)), int(str(v))) if kind != "bipartite" else G.has_edge(int(str(v)), int(str(v - 1)))
+                    if not ok:
+                        ctx.violation("%s:has_edge-by-identity" % kind, "%s: has_edge with fresh int objects does not find the edge (%d, %d)" % (where, v - 1, v))
+            ctx.judged(("ident", kind, n), nontrivial=True, sample={"class": type(G).__name__, "vertices": n})
+
+
 def case_huge_indices(ctx, rseed):
     """Bipartite graphs with astronomically long sides and a handful of edges whose endpoints differ by the moduli of
     machine arithmetic (2^32, 2^61-1 -- the modulus of integer hashing --, 2^63, 2^64): different pairs are different
@@ -737,6 +777,7 @@ def case_repo_tests(ctx):
 def workload(tier, seed):
     maxlen = 2 if tier == "quick" else 3
     yield "huge_indices", {"rseed": seed}
+    yield "equal_but_not_identical", {"rseed": seed}
     enum_starts = [("simple", ["Graph", 2]), ("simple", ["Graph", 3]), ("simple", ["complete", 3]),
                    ("digraph", ["DirectedGraph", 2]), ("digraph", ["DirectedGraph", 3]),
                    ("bipartite", ["BipartiteGraph", 2, 2]), ("bipartite", ["BipartiteGraph", 1, 3]),
